@@ -240,7 +240,10 @@ Inductive tok :=
 | TStart (pfx loc : name) (attrs : list rattr) (empty : bool)
 | TEnd
 | TText
-| TComment.
+| TComment
+(** start tag of an element for which the internal DTD subset declares attributes with a default / #FIXED value:
+    [defs] = all those declarations of the element, in declaration order (qualified name split at the colon, value) *)
+| TStartD (pfx loc : name) (attrs defs : list rattr) (empty : bool).
 
 Record xattr := mkXAttr { xa_uri : nat; xa_pfx : name; xa_loc : name; xa_val : name }.
 (** the XMLDocumentHandler callbacks of the scanner *)
@@ -354,6 +357,37 @@ Definition ig_startTag (c : cfg) (s : scan) (pfx loc : name) (attrs : list rattr
   do xs <- buildAttList c s2 attrs [];
   Ok (st_setTop c s2 uri pfx loc, uri, xs).
 
+(** the same with attribute defaults from the DTD (IGXMLScanner::scanStartTagNS / buildAttList, DTD grammar):
+    every defaulted / fixed xmlns declaration of the element updates the map after the written ones (whether or not
+    the instance writes it too: the written one was pushed first and wins), and after the written attributes have been
+    built every defaulted attribute the tag does not provide is faulted in with
+    resolvePrefix(prefix, Mode_Attribute) -- for the empty prefix: no namespace.  No duplicate check on those. *)
+Fixpoint dtdDefaultsNS (c : cfg) (s : scan) (defs : list rattr) : res scan xerr :=
+  match defs with
+  | [] => Ok s
+  | d :: r => do s' <- (if is_nsdecl d then updateNSMap c s d else Ok s); dtdDefaultsNS c s' r
+  end.
+Definition provided (attrs : list rattr) (d : rattr) : bool :=
+  existsb (fun a => name_eqb (qname_of (ra_pfx a) (ra_loc a)) (qname_of (ra_pfx d) (ra_loc d))) attrs.
+Fixpoint faultIn (c : cfg) (s : scan) (attrs defs : list rattr) : res (list xattr) xerr :=
+  match defs with
+  | [] => Ok []
+  | d :: r =>
+    if provided attrs d then faultIn c s attrs r
+    else do u <- resolvePrefix c s (ra_pfx d) true;
+         do xs <- faultIn c s attrs r;
+         Ok (mkXAttr u (ra_pfx d) (ra_loc d) (ra_val d) :: xs)
+  end.
+Definition ig_startTagD (c : cfg) (s : scan) (pfx loc : name) (attrs defs : list rattr)
+  : res (scan * nat * list xattr) xerr :=
+  do s1 <- st_addLevel c s;
+  do s2 <- scanRawAttrListforNameSpaces c s1 attrs;
+  do s3 <- dtdDefaultsNS c s2 defs;
+  do uri <- resolvePrefix c s3 pfx false;
+  do xs <- buildAttList c s3 attrs [];
+  do ds <- faultIn c s3 attrs defs;
+  Ok (st_setTop c s3 uri pfx loc, uri, xs ++ ds).
+
 (** WFXMLScanner::scanStartTagNS: attributes are handled as they are scanned *)
 Fixpoint wf_scanAttrs (c : cfg) (s : scan) (attrs : list rattr) (done : list (option nat * rattr))
   : res (scan * list (option nat * rattr)) xerr :=
@@ -442,6 +476,13 @@ Definition scan_tok (c : cfg) (s : scan) (t : tok) : res (scan * list dev) xerr 
     let '(uri, pfx, loc, s1) := p in Ok (s1, [DEnd uri pfx loc])
   | TText => Ok (s, [DChars])
   | TComment => Ok (s, [DComment])
+  | TStartD pfx loc attrs defs empty =>
+    do r <- ig_startTagD c s pfx loc attrs defs;
+    let '(s1, uri, xs) := r in
+    if empty then
+      do p <- st_pop c s1;
+      let '(_, _, _, s2) := p in Ok (s2, [DStart uri pfx loc xs true])
+    else Ok (s1, [DStart uri pfx loc xs false])
   end.
 
 Fixpoint scan_toks (c : cfg) (s : scan) (ts : list tok) : scan * list dev * option xerr :=
@@ -756,7 +797,8 @@ Fixpoint toks_nested (ts : list tok) (depth : nat) : bool :=
   | TEnd :: r => match depth with 0 => false | S d => toks_nested r d end
   | _ :: r => toks_nested r depth
   end.
+(** names are NCNames, and (for T06_resolve) the document has no DTD attribute defaults *)
 Definition toks_nc (ts : list tok) : Prop :=
-  Forall (fun t => match t with TStart _ _ a _ => Forall ncname_attr a | _ => True end) ts.
+  Forall (fun t => match t with TStart _ _ a _ => Forall ncname_attr a | TStartD _ _ _ _ _ => False | _ => True end) ts.
 Definition start_ok (uris : pool) (d : nat * list xattr) (r : nsres * list nsres) : Prop :=
   res_ok uris (fst d) (fst r) /\ Forall2 (fun x k => res_ok uris (xa_uri x) k) (snd d) (snd r).
